@@ -7,7 +7,9 @@ import (
 	"math/big"
 	"reflect"
 	"regexp"
+	"strconv"
 	"strings"
+	"sync/atomic"
 	"testing"
 
 	"github.com/pegnet/pegnetd/cmd"
@@ -35,11 +37,57 @@ func implAccepts(content []byte) (*fat2.TransactionBatch, bool) {
 	return &b, true
 }
 
+// c20Actors: the keys genTxs draws input addresses from.
+var c20Actors = func() map[[32]byte]Actor {
+	m := map[[32]byte]Actor{}
+	for i := 0; i <= 5; i++ {
+		a := NewActor(i, false)
+		m[[32]byte(AddrOf(a.FA()))] = a
+	}
+	return m
+}()
+
+// implAcceptsEntry offers the content to pegnetd's real entry constructor, fat2.NewTransactionBatch,
+// as a transaction-chain entry properly signed by the key of its (first) input address.
+// signable = the input address could be read and is one of ours.
+func implAcceptsEntry(content []byte) (signable, accepted bool) {
+	var a Actor
+	ok := false
+	if lt, err := LenientParseBatch(content); err == nil && len(lt) > 0 {
+		a, ok = c20Actors[lt[0].From]
+	}
+	if !ok {
+		// not decodable by the reference either: sign with the key of the first of our addresses
+		// that occurs in the text (should pegnetd decode it, that is its most likely input)
+		first := -1
+		for _, cand := range c20Actors {
+			if i := strings.Index(string(content), cand.FA()); i >= 0 && (first < 0 || i < first) {
+				first, a, ok = i, cand, true
+			}
+		}
+	}
+	if !ok {
+		return false, false
+	}
+	const h = 2000
+	e := Entry{Content: content, ExtIDs: SignFAT103(content, TXChainID, strconv.FormatInt(EntryTime(h, 3), 10), a), Minute: 3}
+	return true, implValidate(e, h) == nil
+}
+
 // checkBatchText is the oracle for one candidate content string.
 // It returns (violation message, class label).
 func checkBatchText(content []byte) (string, string) {
 	b, ok := implAccepts(content)
 	strictTxs, serr := StrictParseBatch(content)
+	if signable, eok := implAcceptsEntry(content); signable && eok && !ok {
+		// the entry constructor is what the sync loop calls: it must not accept what the decoder refuses
+		return fmt.Sprintf("fat2.NewTransactionBatch accepts a properly signed entry whose content its own decoder / ValidData rejects: %s", trunc(string(content), 400)), "accepted"
+	} else if signable {
+		atomic.AddInt64(&entryPathCases, 1)
+		if eok {
+			atomic.AddInt64(&entryPathAccepted, 1)
+		}
+	}
 	if !ok {
 		if serr == nil {
 			// positive control only for canonical texts without batch-level metadata; reported by the caller
@@ -88,6 +136,8 @@ func checkBatchText(content []byte) (string, string) {
 	}
 	return "", class
 }
+
+var entryPathCases, entryPathAccepted int64
 
 func stripMeta(txs []fat2.Transaction) []fat2.Transaction {
 	out := make([]fat2.Transaction, len(txs))
@@ -304,6 +354,8 @@ func TestC20(t *testing.T) {
 			}
 		})
 	})
+	st.Add("texts_offered_to_NewTransactionBatch_as_signed_entries", atomic.LoadInt64(&entryPathCases))
+	st.Add("signed_entries_accepted_by_NewTransactionBatch", atomic.LoadInt64(&entryPathAccepted))
 	t.Run("amount", func(t *testing.T) {
 		rapid.Check(t, func(rt *rapid.T) {
 			s := genAmountString(rt, st)
